@@ -4,8 +4,10 @@ From Coq Require Import String Ascii.
 Open Scope N_scope.
 
 (* byte string literal *)
-Definition b (s : string) : bytes := map N_of_ascii (list_ascii_of_string s).
-Arguments b s%string.
+Definition blit (s : string) : bytes := map N_of_ascii (list_ascii_of_string s).
+Arguments blit s%string.
+(* compile-time literal: expands to the list of N, so that Coq [string] never reaches extraction *)
+Notation "# s" := (ltac:(let v := eval vm_compute in (blit s) in exact v)) (at level 0, s at level 0, only parsing).
 
 Definition starts_uu (n : bytes) : bool :=
   match n with 95 :: 95 :: _ => true | _ => false end.
